@@ -59,6 +59,33 @@ package crypto
 //@           result.0 == ret(call (jws.Message).Signatures #1)[0].ProtectedHeaders().KeyID()
 //@        && result.1 == ret(call (jws.Message).Signatures #1)[0].ProtectedHeaders().Algorithm()
 
+// The algorithm has to belong to the type and curve of the verification key (the JOSE library's ECDSA
+// verifier does not compare them). NIST curves and Ed25519 are decided here, RSA by family; other key
+// types and curves are left to the library.
+//@ func elliptic.P256
+//@   trusted
+//@   pure
+//@ func elliptic.P384
+//@   trusted
+//@   pure
+//@ func elliptic.P521
+//@   trusted
+//@   pure
+//@ func algorithmFitsCurve
+//@   prop C17
+//@   pure
+//@   ensures [es256-only-on-p256] curve == elliptic.P256() ==> (result <==> alg == jwa.ES256)
+//@   ensures [es384-only-on-p384] curve != elliptic.P256() && curve == elliptic.P384() ==> (result <==> alg == jwa.ES384)
+//@   ensures [es512-only-on-p521] curve != elliptic.P256() && curve != elliptic.P384() && curve == elliptic.P521() ==> (result <==> alg == jwa.ES512)
+//@ func CheckAlgorithmFitsKey
+//@   prop C17
+//@   safety
+//@   modifies nothing
+//@   ensures [ec-keys-by-curve] isNilIface(result) && typeOf(key) == *ecdsa.PublicKey ==> key.(*ecdsa.PublicKey) != nil && algorithmFitsCurve(alg, key.(*ecdsa.PublicKey).Curve)
+//@   ensures [ec-key-values-by-curve] isNilIface(result) && typeOf(key) == ecdsa.PublicKey ==> algorithmFitsCurve(alg, key.(ecdsa.PublicKey).Curve)
+//@   ensures [ed25519-keys-only-eddsa] isNilIface(result) && typeOf(key) == ed25519.PublicKey ==> alg == jwa.EdDSA
+//@   ensures [rsa-keys-only-rsa-algorithms] isNilIface(result) && (typeOf(key) == *rsa.PublicKey || typeOf(key) == rsa.PublicKey) ==>
+//@        alg == jwa.PS256 || alg == jwa.PS384 || alg == jwa.PS512 || alg == jwa.RS256 || alg == jwa.RS384 || alg == jwa.RS512
 //@ func ParseJWT
 //@   prop C17 C01
 //@   summary once
@@ -69,6 +96,7 @@ package crypto
 //@     && kid == ret(call JWTKidAlg #1).0 && alg == ret(call JWTKidAlg #1).1
 //@     && did(call f #1) && arg(call f #1, 0) == kid && isNilIface(ret(call f #1).1) && key == ret(call f #1).0
 //@     && jwx.IsAlgorithmSupported(alg)
+//@     && did(call CheckAlgorithmFitsKey #1) && isNilIface(ret(call CheckAlgorithmFitsKey #1)) && arg(call CheckAlgorithmFitsKey #1, 0) == alg && arg(call CheckAlgorithmFitsKey #1, 1) == key
 //@     && len(arg(1)) >= 2
 //@     && arg(1)[len(arg(1))-2] == ret(call jwt.WithKey #1) && arg(call jwt.WithKey #1, 0) == jwa.KeyAlgorithm(alg) && arg(call jwt.WithKey #1, 1) == key
 //@     && arg(1)[len(arg(1))-1] == ret(call jwt.WithVerify #1) && arg(call jwt.WithVerify #1, 0) == true
